@@ -56,6 +56,14 @@ def expected (kind : String) (src : V) (input : Bytes) : Option String :=
       | none => none
     | _ => none
 
+/-- does the source value contain a string (or key) that starts with U+FEFF (EF BB BF)?  Those are the
+    values the known finding `utf8-bom-stripped` excuses. -/
+partial def hasBomString : V → Bool
+  | .str (0xef :: 0xbb :: 0xbf :: _) => true
+  | .arr xs => xs.any hasBomString
+  | .map kvs => kvs.any (fun (k, v) => hasBomString k || hasBomString v)
+  | _ => false
+
 def stepC16 (op obs : String) : String :=
   match words op with
   | [fmt, hex, kind, srcs] =>
@@ -75,6 +83,8 @@ def stepC16 (op obs : String) : String :=
               | some fx => m == obs && showRes input.length (fx input) == some exp
               | none => false
             if known then s!"KNOWN {key} expected={exp}"
+            else if m == obs && hasBomString src && kind != "trunc" && kind != "bad" then
+              s!"KNOWN utf8-bom-stripped expected={exp}"
             else s!"PROPFAIL expected={exp}{div}"
     | none, _, _ => "BADOP format"
     | _, none, _ => "BADOP hex"
